@@ -685,14 +685,21 @@ func sideDoors(c *Ctx, rule string) {
 	m := 0
 	scanCalls(c.P, c.P.LibFns, func(s string) bool { return shortName(s) == "xmlUnmarshalElement" }, func(s callSite) {
 		m++
-		tt := targetType(s)
-		for _, es := range elemSites {
-			if c.P.withinOnly(s.Caller, allowNames(es.Within...)) && es.Types[tt] {
-				c.ok(rule, shortFn(s.Caller), "xmlUnmarshalElement into "+tt, c.P.InstrPos(s.Instr), "decode site inside "+es.Within[0]+" (its provenance is checked on the kernel paths)")
-				return
+		// a helper that only forwards its own interface-typed parameter is classified at its call sites
+		for _, eff := range effectiveTargets(c.P, s, 1, 0) {
+			tt := eff.Type
+			okSite := false
+			for _, es := range elemSites {
+				if eff.Resolved && c.P.withinOnly(eff.Site.Caller, allowNames(es.Within...)) && es.Types[tt] {
+					c.ok(rule, shortFn(eff.Site.Caller), "xmlUnmarshalElement into "+tt, c.P.InstrPos(eff.Site.Instr), "decode site inside "+es.Within[0]+" (its provenance is checked on the kernel paths)")
+					okSite = true
+					break
+				}
+			}
+			if !okSite {
+				c.bad(rule, shortFn(eff.Site.Caller), "xmlUnmarshalElement into "+tt, c.P.InstrPos(eff.Site.Instr), "new decode site outside the analysed validators")
 			}
 		}
-		c.bad(rule, shortFn(s.Caller), "xmlUnmarshalElement into "+tt, c.P.InstrPos(s.Instr), "new decode site outside the analysed validators")
 	})
 	c.count(rule+"/element-decode-sites", m)
 	c.floor(rule+"/element-decode-sites", 4)
@@ -1328,4 +1335,60 @@ func assertionListStores(t *Terminal, obj Val, seq int) (appends []*Event, reset
 		other = append(other, e)
 	}
 	return
+}
+
+// effTarget: a call site at which the concrete type handed to a decode helper is decided.
+type effTarget struct {
+	Site     callSite
+	Type     string
+	Resolved bool
+}
+
+// effectiveTargets: the decode target of call site s (argument argIdx). When the argument is merely the enclosing
+// function's own interface-typed parameter, the helper is a forwarder and the targets are those of all its static call
+// sites (followed up to three levels); a forwarder whose address is taken, or that has no call site, stays unresolved.
+func effectiveTargets(p *Prog, s callSite, argIdx, depth int) []effTarget {
+	if s.Instr == nil || len(s.Instr.Common().Args) <= argIdx {
+		return []effTarget{{Site: s, Type: "?"}}
+	}
+	a := s.Instr.Common().Args[argIdx]
+	if mi, ok := a.(*ssa.MakeInterface); ok {
+		return []effTarget{{Site: s, Type: typeStr(mi.X.Type()), Resolved: true}}
+	}
+	par, isParam := a.(*ssa.Parameter)
+	if _, isIface := a.Type().Underlying().(*types.Interface); !isIface {
+		return []effTarget{{Site: s, Type: typeStr(a.Type()), Resolved: true}}
+	}
+	if !isParam || depth >= 3 || s.Caller == nil {
+		return []effTarget{{Site: s, Type: typeStr(a.Type())}}
+	}
+	pi := -1
+	for i, q := range s.Caller.Params {
+		if q == par {
+			pi = i
+		}
+	}
+	var out []effTarget
+	escapes := false
+	for _, f := range p.LibFns {
+		for _, b := range f.Blocks {
+			for _, in := range b.Instrs {
+				if ci, ok := in.(ssa.CallInstruction); ok && ci.Common().StaticCallee() == s.Caller {
+					out = append(out, effectiveTargets(p, callSite{Caller: f, Callee: s.Caller.String(), Fn: s.Caller, Instr: ci}, pi, depth+1)...)
+					continue
+				}
+				for _, op := range in.Operands(nil) {
+					if op != nil && *op == ssa.Value(s.Caller) {
+						if ci, ok := in.(ssa.CallInstruction); !ok || ci.Common().Value != ssa.Value(s.Caller) {
+							escapes = true
+						}
+					}
+				}
+			}
+		}
+	}
+	if pi < 0 || escapes || len(out) == 0 {
+		return []effTarget{{Site: s, Type: typeStr(a.Type())}}
+	}
+	return out
 }
